@@ -165,6 +165,12 @@ def gen_cases(ctx):
                         cases.append({"kind": "nvar_run", "delay": delay, "order": order, "strides": strides,
                                       "dim": dim, "mode": g.choice(["run", "calls"]),
                                       "U_f": [g.dyvec(dim, nonzero=True) for _ in range(T)]})
+                        # the same with many all-zero rows: outputs (and whole windows) that are exactly zero
+                        # must not be mistaken for "nothing happened yet"
+                        T = g.randint(4, 16)
+                        cases.append({"kind": "nvar_run", "delay": delay, "order": order, "strides": strides,
+                                      "dim": dim, "mode": g.choice(["run", "calls"]), "zero_rows": True,
+                                      "U_f": [([0.0] * dim if g.chance(0.6) else g.dyvec(dim, nonzero=True)) for _ in range(T)]})
     for d in range(0, 6):
         for init in (False, True):
             if d == 0 and init:
@@ -175,6 +181,11 @@ def gen_cases(ctx):
                 cases.append({"kind": "delay_run", "delay": d, "dim": dim, "mode": g.choice(["run", "calls"]),
                               "init_f": [g.dyvec(dim, nonzero=True) for _ in range(d)] if init else None,
                               "U_f": [g.dyvec(dim, nonzero=True) for _ in range(T)]})
+                # square initial values (delay == dim) and zero rows
+                dim2 = d if (init and 2 <= d <= 3 and g.chance(0.7)) else dim
+                cases.append({"kind": "delay_run", "delay": d, "dim": dim2, "mode": g.choice(["run", "calls"]),
+                              "init_f": [g.dyvec(dim2, nonzero=True) for _ in range(d)] if init else None,
+                              "U_f": [([0.0] * dim2 if g.chance(0.4) else g.dyvec(dim2, nonzero=True)) for _ in range(T)]})
     for _ in range(ctx.n(30, 200)):
         k = g.randint(1, 4)
         cases.append({"kind": "concat", "parts_f": [g.dyvec(g.randint(1, 4)) for _ in range(k)]})
